@@ -191,16 +191,151 @@ def run(ctx):
     rvd = mod.func('readvardef')
     mp = mod.func('maparlpackedbit')
 
-    def width(e):
+    INF = 10 ** 9
+
+    def wrange(e):
+        """(least, greatest) number of characters of a text expression.  (0, INF): arbitrary text (taken from the caller's data);
+        None: not known (a value the checker cannot trace).  %Nd counts as N wide (values are assumed to fit their field)"""
         if isinstance(e, ast.Constant) and isinstance(e.value, str):
-            return len(e.value)
-        if isinstance(e, ast.BinOp) and isinstance(e.op, ast.Mod) and const_str(e.left):
-            m = re.match(r'^%-?(\d+)(\.\d+)?[dsEef]$', const_str(e.left))
-            return int(m.group(1)) if m else None
+            return (len(e.value), len(e.value))
+        if isinstance(e, ast.BinOp) and isinstance(e.op, ast.Mod) and const_str(e.left) is not None:
+            ps = template_pieces(e)
+            if ps is None or any(p_ is None for p_ in ps):
+                return None
+            return (sum(p_[0] for p_ in ps), min(INF, sum(p_[1] for p_ in ps)))
         if isinstance(e, ast.Call) and isinstance(e.func, ast.Attribute) and e.func.attr in ('decode', 'encode'):
-            return width(e.func.value)
-        if isinstance(e, ast.Subscript) and isinstance(e.slice, ast.Slice) and e.slice.lower is None and num(e.slice.upper) is not None:
-            return int(num(e.slice.upper))
+            return wrange(e.func.value)
+        if isinstance(e, ast.Call) and isinstance(e.func, ast.Attribute) and e.func.attr in ('ljust', 'rjust', 'center') and e.args and num(e.args[0]) is not None:
+            r_ = wrange(e.func.value)
+            n_ = int(num(e.args[0]))
+            if r_ is None:
+                return (n_, INF)
+            return (max(n_, r_[0]), max(n_, r_[1]))
+        if isinstance(e, ast.Subscript) and isinstance(e.slice, ast.Slice) and e.slice.lower is None and num(e.slice.upper) is not None and e.slice.step is None:
+            r_ = wrange(e.value)
+            n_ = int(num(e.slice.upper))
+            if r_ is None:
+                return (n_, n_)        # untraced text cut to N: taken to fill its field (as the reader does)
+            return (min(n_, r_[0]), min(n_, r_[1]))
+        if isinstance(e, ast.Name):
+            return name_range(e.id)
+        return None
+
+    def template_pieces(e):
+        """%-template applied to arguments -> list of (least, greatest) per literal run and per conversion, or None"""
+        tmpl = const_str(e.left)
+        args = list(e.right.elts) if isinstance(e.right, ast.Tuple) else [e.right]
+        out, pos, k = [], 0, 0
+        for m in re.finditer(r'%(-?)(\d*)(\.\d+)?([dsEefi%])', tmpl):
+            lit = tmpl[pos:m.start()]
+            if '%' in lit:
+                return None
+            if lit:
+                out.append((len(lit), len(lit)))
+            pos = m.end()
+            if m.group(4) == '%':
+                out.append((1, 1))
+                continue
+            n_ = int(m.group(2)) if m.group(2) else 0
+            if m.group(4) == 's':
+                r_ = wrange(args[k]) if k < len(args) else None
+                out.append(None if r_ is None else (max(n_, r_[0]), max(n_, r_[1])))
+            elif n_:
+                out.append((n_, n_))
+            else:
+                out.append(None)
+            k += 1
+        if '%' in tmpl[pos:]:
+            return None
+        if tmpl[pos:]:
+            out.append((len(tmpl) - pos, len(tmpl) - pos))
+        return out
+
+    def provenance(nm, depth=0):
+        """'param' when the name holds (part of) an argument of writevardef; ('call', F) when it holds (an element of) what module
+        function F returns; None otherwise"""
+        if depth > 5:
+            return None
+        if nm in [a_.arg for a_ in wv.args.args]:
+            return 'param'
+        for lp in [x for x in ast.walk(wv) if isinstance(x, ast.For)]:
+            tg = lp.target.elts if isinstance(lp.target, ast.Tuple) else [lp.target]
+            its = lp.iter.args if isinstance(lp.iter, ast.Call) and dotted(lp.iter.func) == 'zip' else [lp.iter]
+            if len(tg) == len(its):
+                for t_, it_ in zip(tg, its):
+                    if isinstance(t_, ast.Name) and t_.id == nm:
+                        b_ = it_
+                        while isinstance(b_, (ast.Subscript, ast.Attribute)):
+                            b_ = b_.value
+                        return provenance(b_.id, depth + 1) if isinstance(b_, ast.Name) else None
+        defs = [st for st in iter_stmts(wv.body) if isinstance(st, ast.Assign) and len(st.targets) == 1 and isinstance(st.targets[0], ast.Name) and st.targets[0].id == nm]
+        if len(defs) == 1:
+            v = defs[0].value
+            if isinstance(v, ast.Call) and isinstance(v.func, ast.Name) and v.func.id in mod.functions:
+                return ('call', v.func.id)
+            b_ = v
+            while isinstance(b_, (ast.Subscript, ast.Attribute)):
+                b_ = b_.value
+            if isinstance(b_, ast.Name) and b_.id != nm:
+                return provenance(b_.id, depth + 1)
+        return None
+
+    def guarded_len(fn_, v_, before):
+        """N when fn_ raises unless len(v_) == N at a statement before line `before`"""
+        for st in iter_stmts(fn_.body):
+            if isinstance(st, ast.If) and st.body and isinstance(st.body[-1], ast.Raise) and isinstance(st.test, ast.Compare) and len(st.test.ops) == 1 \
+                    and isinstance(st.test.ops[0], ast.NotEq) and norm(st.test.left) == 'len(%s)' % v_ and num(st.test.comparators[0]) is not None and st.lineno < before:
+                return int(num(st.test.comparators[0]))
+        return None
+
+    def scalar_width(fname):
+        f_ = mod.functions[fname]
+        rets = [st for st in iter_stmts(f_.body) if isinstance(st, ast.Return)]
+        ws_ = set(guarded_len(f_, st.value.id, st.lineno) if isinstance(st.value, ast.Name) else None for st in rets)
+        return list(ws_)[0] if len(ws_) == 1 and None not in ws_ else None
+
+    def elem_width(fname):
+        """width of every element of the list module function fname returns, or None"""
+        f_ = mod.functions[fname]
+        rets = [st for st in iter_stmts(f_.body) if isinstance(st, ast.Return)]
+        if len(rets) != 1:
+            return None
+        rv = rets[0].value
+        if isinstance(rv, ast.ListComp) and isinstance(rv.elt, ast.Call) and isinstance(rv.elt.func, ast.Name) and rv.elt.func.id in mod.functions:
+            return scalar_width(rv.elt.func.id)
+        if isinstance(rv, ast.Name):
+            aps = [c for c in ast.walk(f_) if isinstance(c, ast.Call) and isinstance(c.func, ast.Attribute) and c.func.attr == 'append'
+                   and isinstance(c.func.value, ast.Name) and c.func.value.id == rv.id and len(c.args) == 1]
+            ws_ = set()
+            for ap in aps:
+                a_ = ap.args[0]
+                if isinstance(a_, ast.Name):
+                    ws_.add(guarded_len(f_, a_.id, ap.lineno))
+                elif isinstance(a_, ast.Call) and isinstance(a_.func, ast.Name) and a_.func.id in mod.functions:
+                    ws_.add(scalar_width(a_.func.id))
+                else:
+                    ws_.add(None)
+            return list(ws_)[0] if len(ws_) == 1 and None not in ws_ else None
+        return None
+
+    def name_range(nm):
+        pv = provenance(nm)
+        if pv == 'param':
+            return (0, INF)
+        if isinstance(pv, tuple):
+            n_ = elem_width(pv[1])
+            return (n_, n_) if n_ is not None else None
+        return None
+
+    def width(e):
+        r_ = wrange(e)
+        if r_ is None:
+            return None
+        lo, hi = r_
+        if lo == hi:
+            return lo
+        if hi < INF:
+            return ('upto', lo, hi)
         return None
 
     def concat_terms(e):
@@ -208,17 +343,25 @@ def run(ctx):
             return concat_terms(e.left) + concat_terms(e.right)
         return [e]
 
+    def piece_widths(st, t_):
+        """a %-template contributes one piece per literal run and conversion, anything else one piece"""
+        if isinstance(t_, ast.BinOp) and isinstance(t_.op, ast.Mod) and const_str(t_.left) is not None:
+            ps = template_pieces(t_)
+            if ps is not None and all(p_ is not None for p_ in ps):
+                return [(st, p_[0] if p_[0] == p_[1] else (('upto', p_[0], p_[1]) if p_[1] < INF else None)) for p_ in ps]
+        return [(st, width(t_))]
+
     def emitted(body, name=None):
         """pieces of text appended, in order, by the statements of this block: `acc += piece` or `acc.append(piece + piece ...)`"""
         out = []
         for st in body:
             if isinstance(st, ast.AugAssign) and isinstance(st.target, ast.Name) and isinstance(st.op, ast.Add):
                 for t_ in concat_terms(st.value):
-                    out.append((st, width(t_)))
+                    out.extend(piece_widths(st, t_))
             elif isinstance(st, ast.Expr) and isinstance(st.value, ast.Call) and isinstance(st.value.func, ast.Attribute) and st.value.func.attr == 'append' \
                     and isinstance(st.value.func.value, ast.Name) and len(st.value.args) == 1:
                 for t_ in concat_terms(st.value.args[0]):
-                    out.append((st, width(t_)))
+                    out.extend(piece_widths(st, t_))
         return out
     outer = None
     for st in wv.body:
@@ -295,6 +438,13 @@ def run(ctx):
         widths = [w for st, w in ws]
         if not ws:
             raise AnalysisError('construct not understood: no text pieces written per %s entry in writevardef' % kind)
+        ragged = [(st_, w) for st_, w in ws if isinstance(w, tuple)]
+        if ragged:
+            st_, w = ragged[0]
+            ctx.violation(Finding('R-ARLWIDTH', RP, 'writevardef', st_,
+                                  '%s entry: a written piece is between %d and %d characters wide (it is cut but not padded to its field), while the reader slices '
+                                  'fixed fields %s: a shorter value shifts everything after it' % (kind, w[1], w[2], rs)))
+            return
         if None in widths:
             ctx.undec('R-ARLWIDTH', kind, where, 'a written piece has no static width')
             return
